@@ -106,6 +106,20 @@ class Canon(ast.NodeTransformer):
             return self.visit_BinOp(ast.BinOp(left=inner, op=ast.Sub(), right=node.right.right))
         return node
 
+    def visit_IfExp(self, node: ast.IfExp):
+        self.generic_visit(node)
+        # `True if T else E` is `T or E`; `E if T else False` is `T and E`; `False if T else E` is `not T and E`; `E if T else True` ...
+        b, o = node.body, node.orelse
+        if isinstance(b, ast.Constant) and b.value is True:
+            return ast.BoolOp(op=ast.Or(), values=[node.test, o])
+        if isinstance(o, ast.Constant) and o.value is False:
+            return ast.BoolOp(op=ast.And(), values=[node.test, b])
+        if isinstance(b, ast.Constant) and b.value is False:
+            return ast.BoolOp(op=ast.And(), values=[self.visit(ast.UnaryOp(op=ast.Not(), operand=node.test)), o])
+        if isinstance(o, ast.Constant) and o.value is True:
+            return ast.BoolOp(op=ast.Or(), values=[self.visit(ast.UnaryOp(op=ast.Not(), operand=node.test)), b])
+        return node
+
     def visit_Invert(self, node):
         return node
 
